@@ -828,6 +828,8 @@ CLAIM = {
              "(e.g. parse_numbers on decimal grids) is not decided.",
     "note": "Trusted: CPython ast, the reference table /verif/tables/options.json (semantic sinks, not source fragments). Several vector-parser "
             "obligations are syntactic patterns over util.parse_numbers as it is written today.",
-    "technique": "static analysis: C13.3 error exits implied by `len(range) != 2` (statements after the option loop folded, boolq implication); C13.5 config tokens by value; option-branch extraction from the AST, expression-kind classification, def-use to sinks (constructor keywords / "
+    "technique": "static analysis: option handling by value (the body of the option loop folded once per documented flag with `arg` fixed: variables changed, value kind, arguments consumed; "
+                 "syntactic branch table as fallback); -type dispatch folded per literal; C13.3 error exits implied by `len(range) != 2` (boolq implication) and termination of the date stepping "
+                 "loop by a ranking argument (path condition into the loop implies step >= 1); C13.5 config tokens by value; def-use to sinks (constructor keywords / "
                  "output attributes), guard and no-return-exit enumeration, registry/help/dispatch set comparison",
 }
